@@ -367,3 +367,39 @@ META = {
     "technique": "Lean 4 proof (composition with the C33 round-trip theorem, abstract OS with law hypotheses) + "
                  "recorded-OS correspondence + twin-file oracle through a real session",
 }
+
+
+def replay(data):
+    """./check C31 --replay <file>: redo the recorded operation on a fresh file (random contents of the recorded size)
+    through a real session and on a twin with os.*"""
+    from pv import lib_sftploop as lib
+
+    d = data["case"]
+    if "op" not in d or d["op"] == "combo":
+        print("replay covers single client operations; re-run ./check C31 with VERIF_SEED=%s" % data.get("seed"))
+        return 0
+    root, twin_root = tempfile.mkdtemp(prefix="pv-c31-srv-"), tempfile.mkdtemp(prefix="pv-c31-twin-")
+    try:
+        content = b"hello world" if d["file_size"] == 11 else os.urandom(d["file_size"])
+        served, twin = os.path.join(root, "f"), os.path.join(twin_root, "f")
+        for p in (served, twin):
+            with open(p, "wb") as f:
+                f.write(content)
+            os.chmod(p, int(d.get("initial_mode", "0o644"), 8))
+            os.utime(p, (1000, 2000))
+        args = [tuple(a) if isinstance(a, list) else a for a in d["args"]]
+        with lib.Session(root=root) as s:
+            if d["route"] == "handle":
+                fh = s.client.open("/f", "r+")
+                getattr(fh, d["op"])(*args)
+                fh.close()
+            else:
+                getattr(s.client, d["op"])("/f", *args)
+        getattr(os, d["op"])(twin, *args)
+        got, want = snapshot(served, d["op"] == "utime"), snapshot(twin, d["op"] == "utime")
+        k = first_diff(want, got)
+        print("served %r\ntwin   %r\n-> %s" % (show(got), show(want), "FAILS (%s differs)" % k if k else "holds"))
+        return 1 if k else 0
+    finally:
+        shutil.rmtree(root, ignore_errors=True)
+        shutil.rmtree(twin_root, ignore_errors=True)
